@@ -42,7 +42,7 @@ type Case struct {
 
 // waitLimit bounds every wait for a reaction of the implementation; once a wait has timed out (the
 // implementation is broken: the run is a violation anyway) later waits are cut short so that the run still ends.
-var waitLimit = 3 * time.Second
+var waitLimit = 20 * time.Second
 
 func timedOut() { waitLimit = 30 * time.Millisecond }
 
